@@ -99,7 +99,7 @@ func RunParse(t *testing.T, c *Case, s Sched, keepLog bool) *Obs {
 		o.ErrNil = err == nil
 		if err != nil {
 			o.ErrText = err.Error()
-			o.ErrInjected = errors.Is(err, gosim.ErrInjected)
+			o.ErrInjected = errors.Is(err, gosim.InjectedErr(c.Reader.ErrKind))
 			o.ErrNoProgress = errors.Is(err, io.ErrNoProgress)
 		}
 	}
@@ -109,6 +109,7 @@ func RunParse(t *testing.T, c *Case, s Sched, keepLog bool) *Obs {
 	if sr != nil {
 		o.Fired, o.FiredBeforeReturn = sr.Fired > 0, sr.FiredRet
 		o.ReaderOps, o.ReaderEOFs, o.UnreadAfterUnread = sr.Ops, sr.EOFs, sr.UnreadAfterUnread
+		o.ReaderReads = sr.Reads
 	}
 	if br != nil {
 		o.Fired, o.FiredBeforeReturn = br.Fired > 0, br.FiredRet
